@@ -37,7 +37,9 @@ theorem try_new_ok_iff (r : Route) :
   all_goals (cases hn : neighbor _ <;> simp)
 
 /-- ... and each refusal names the first requirement that fails, in the order
-ORIGIN, AS_PATH, neighbour. -/
+ORIGIN, AS_PATH, neighbour.  (About the MODEL's order of checks only: the
+property says "refused", not why, and the reason - a private enum of routecore -
+is not observed by the correspondence run.) -/
 theorem try_new_refusal (r : Route) :
     (tryNew r = some .noOrigin ↔ ¬ HasOrigin r) ∧
     (tryNew r = some .noPath ↔ HasOrigin r ∧ ¬ HasPath r) ∧
